@@ -1,5 +1,6 @@
 """C12 - plates are observed atomically; revealing is exact, monotone and value-preserving (history property)."""
 import json
+import os
 import math
 
 import numpy as np
@@ -21,6 +22,7 @@ RULE = (
     "selection. Non-trivial = history with >=2 reveals of which one touches an already observed or unknown id. distinct = distinct case JSON."
     ' Also: histories during which 140 .. 1100 other screens are built and kept alive; one history in sixty has 40..70 operations.'
     ' After a refused command-line reveal the input archive is loaded again and compared.'
+    ' Every plain save is surrounded by neighbour files that must survive it.'
 )
 ASSUMPTIONS = [
     "a reveal is expected to refuse exactly when the stored values of the selected rows are all zero (incl. the empty selection) or contain NaN - the two guards the statement names",
@@ -232,7 +234,10 @@ def check_case(case):
             elif kind == "saveload":
                 p = fresh_or_shared("s.h5")
                 paths.append(p)
+                near = tmp.neighbours(p)  # working-file-like neighbours of the archive: a save leaves them alone
                 cur.save_h5(p)
+                bad_ = tmp.changed_neighbours(near)
+                require(not bad_, "save.touches_other_files", lambda: "saving the screen to %s changed other files of that directory: %r" % (os.path.basename(p), bad_))
                 cur = Screen.load_h5(p)
             elif kind == "cli_meta":
                 p, o = fresh_or_shared("s.h5"), tmp.fresh("meta.json")
